@@ -966,6 +966,7 @@ def _monoexon_registration_problems(seed):
         c.params = types.SimpleNamespace(min_novel_count=rng.choice([1, 2, 3]))
         c.gene_info = types.SimpleNamespace(chr_id="chr1")
         c.id_distributor = idp.SimpleIDDistributor()
+        c.chr_record = None
         c.transcript_read_ids, c.internal_counter, c.read_assignment_counts = defaultdict(list), defaultdict(int), defaultdict(int)
         existing = []
         for k in range(rng.randint(0, 2)):
